@@ -20,6 +20,7 @@ type c04Case struct {
 	Module *dm.Module   `json:"module"`
 	Data   dm.Tree      `json:"data"`
 	Source string       `json:"source"`
+	EnumIDs bool        `json:"enumAsIds,omitempty"` // writer option: enums by value; the reader must take them back
 	Style  dm.JSONStyle `json:"style"`
 	Pretty bool         `json:"pretty"`
 	Qual   bool         `json:"qualified"`
@@ -209,7 +210,7 @@ func c04Run(c c04Case, o *hx.Obs) {
 
 	// (b) JSON text
 	src2, _ := srcNode(c.Source, c.Module, c.Data, c.Style)
-	wtr := &nodeutil.JSONWtr{Pretty: c.Pretty, QualifyNamespace: c.Qual}
+	wtr := &nodeutil.JSONWtr{Pretty: c.Pretty, QualifyNamespace: c.Qual, EnumAsIds: c.EnumIDs}
 	var text string
 	if o.Guard("JSONWtr", func() { text, xerr = wtr.JSON(node.NewBrowser(mm, src2).Root()) }) {
 		return
@@ -223,7 +224,7 @@ func c04Run(c c04Case, o *hx.Obs) {
 		o.Failf("json-rt|malformed", "%v\n%s", derr, text)
 		return
 	}
-	tj, probs := dm.NormJSON(root, dec, dm.NormOpts{Mod: c.Module.Name}, "")
+	tj, probs := dm.NormJSON(root, dec, dm.NormOpts{Mod: c.Module.Name, EnumAsID: c.EnumIDs}, "")
 	if len(probs) > 0 {
 		o.Failf("json-rt|"+probs[0].Clause+"-"+probs[0].Kind, "JSON output does not read back: %s\n%s", probs[0], text)
 		return
@@ -277,7 +278,7 @@ func sortedBoolKeysT(m map[string]bool) []string {
 
 var c04Export = hx.Register(&hx.Check[c04Case]{
 	Name: "c04-export-json",
-	Rule: "generated schema (all node kinds and leaf types, nested lists, compound keys, choices, defaults) + conforming data tree with boundary values; source in {reference store, JSON reader, XML reader on a harness-written document, map-, slice- and struct-backed Reflect and Node stores}; compact/pretty, qualified/unqualified; non-trivial = a list with >= 2 entries or >= 4 nodes",
+	Rule: "generated schema (all node kinds and leaf types, nested lists, compound keys, choices, defaults) + conforming data tree with boundary values; source in {reference store, JSON reader, XML reader on a harness-written document, map-, slice- and struct-backed Reflect and Node stores}; compact/pretty, qualified/unqualified, enums by name or by value; non-trivial = a list with >= 2 entries or >= 4 nodes",
 	Gen: func(t *rapid.T) c04Case {
 		o := dm.DefaultGen()
 		source := rapid.SampledFrom([]string{"rs", "rs", "json", "json", "xml", "reflect-map", "reflect-slice", "node-map", "node-slice", "reflect-struct", "node-struct"}).Draw(t, "source")
@@ -302,7 +303,7 @@ var c04Export = hx.Register(&hx.Check[c04Case]{
 		m := dm.GenModule(t, o)
 		data := dm.GenTree(t, m.Root(), to)
 		return c04Case{Module: m, Data: data, Source: source, Style: genJSONStyle(t),
-			Pretty: rapid.Bool().Draw(t, "pretty"), Qual: rapid.Bool().Draw(t, "qual")}
+			Pretty: rapid.Bool().Draw(t, "pretty"), Qual: rapid.Bool().Draw(t, "qual"), EnumIDs: rapid.IntRange(0, 2).Draw(t, "enum-ids") == 0}
 	},
 	Run: c04Run,
 })
